@@ -22,7 +22,7 @@ CHECKS = {
  "C06": ("model-based stateful property testing (proptest); oracle: handle-instance ledger vs strong_count/weak_count/ptr_eq/as_ptr after every op and inside destructors",
          "Counts equal the number of existing handle instances at every quiescent point and at destructor observation points; identity stable.", "4 C06"),
  "C07": ("differential property testing (proptest): generated straight-line programs interpreted over cactusref and over std::rc; oracle: equality of observation traces and ordered destructor logs",
-         "Same results from every shared API call and the same sequence of value destructions as std::rc::{Rc,Weak} of the installed toolchain, over generated no-adoption programs with values owning strong and Weak handles.", "4 C07"),
+         "Same results from every shared API call and the same sequence of value destructions as std::rc::{Rc,Weak} of the installed toolchain, over generated no-adoption programs with values owning strong and Weak handles, payload alignments 8..128, a panicking Clone, and the shared API on non-Eq / zero-sized / odd-sized payloads (f64 with NaN, f32, u8, (), [u8;3], Option<f64>, (u8,f32)).", "4 C07"),
  "C08": ("model-based stateful property testing (proptest); oracle: link-table snapshots (hook H1) vs adoption ledger after every op",
          "Tables equal the multiset of adoptions implied by the calls, mirrored on both ends, never naming a destroyed object.", "4 C08"),
  "C09": ("metamorphic property testing (proptest): each generated history replayed under K perturbed heap layouts in separate forks; oracle: equal per-op destroyed sets and counts",
@@ -30,7 +30,7 @@ CHECKS = {
  "C10": ("model-based stateful property testing (proptest) with generated destructor action scripts (re-entrant API use); oracle: views of C01-C06 on the nested event log + no library panic",
          "Destructors that clone/drop/adopt/unadopt/downgrade/upgrade on outsiders (incl. nested collections) during every teardown path leave all C01-C06 views intact and meet no borrow conflict.", "4 C10"),
  "C11": ("fault injection driven by property testing (proptest): one armed panic per op inside generated payload destructors, run under catch_unwind; oracle: at-most-once log, reachability bound, Weak views, allocator faults, history continues",
-         "Fault enumeration over every small group shape (<= 3 objects) x every object as the panicking one x every drop order (every 8th case in the quick tier, all 296k in the thorough tier) plus generated histories: a panic at any member position of any teardown path propagates, destroys nothing twice, frees nothing twice, leaves reachable objects intact and Weaks reporting dead.", "4 C11"),
+         "Fault enumeration over every small group shape (<= 3 objects) x every object as the panicking one x every drop order (every 8th case in the quick tier, all 296k in the thorough tier) plus generated histories: a panic at any member position of any teardown path propagates, destroys nothing twice, frees nothing twice, leaves reachable objects intact (value, counts, link tables) and Weaks reporting dead; a quarter of the generated histories elide unadopt (known finding D4 excluded by construction).", "4 C11"),
  "C12": ("model-based stateful property testing (proptest) over the handle-consuming API on linked objects; oracle: table snapshots, allocator faults, value moved/cloned exactly once, allocation accounting",
          "try_unwrap/make_mut/get_mut/raw round trips/inc/dec on objects with adoption records leave no peer record naming the given-up allocation and later drops touch no freed memory.", "4 C12"),
  "C13": ("model-based stateful property testing (proptest) over histories with elided unadopt; oracle: reachability bound + allocator faults; known finding D4 excluded by an exact model predicate evaluated before each drop",
@@ -46,13 +46,16 @@ NOT_YET = {}
 
 def main():
     checks = []
-    BIG = {"C01", "C02", "C03", "C04", "C05", "C06", "C15", "C16"}
+    BIG = {"C01", "C02", "C03", "C04", "C05", "C06", "C09", "C10", "C11", "C12", "C14", "C15", "C16"}
+    TYPES = {"C01", "C02", "C03", "C04", "C05", "C06", "C08", "C12"}
     SWEEP = {"C01", "C02", "C03", "C04", "C05", "C06", "C08"}
     FUZZ = {"C01", "C02", "C03", "C05", "C06", "C08", "C10", "C12"}
     for pid, (tech, text, ref) in sorted(CHECKS.items()):
         extra = []
         if pid in BIG:
-            extra.append("large-scale cases (rings with adopted tails up to 8k quick / 120k thorough objects, payload with and without drop glue) under the same oracle")
+            extra.append("large-scale cases under the same oracle (generated: rings with adopted tails / chords / sinks up to 8k quick / 120k thorough objects, payload with and without drop glue; per property also sole-holder sweeps over every ring member, complete digraphs up to 1.2M records, nested-collection chains up to 20000 deep, emptied hubs up to 70k adoptees, panicking / cloning destructors)")
+        if pid in TYPES:
+            extra.append("payload-type matrix: generated histories on Rc<T> for 12 payload types (zero-sized, sizes not a multiple of 8, > 4 KiB, 70 KB, align 256 / 4096, with and without drop glue / destructor) with ownership kept outside the values, same reference model")
         if pid in SWEEP:
             extra.append("small-scope sweep over all adoption multigraphs on <= 3 objects x kept roots x Weaks x drop orders (1.95M histories; quick: every 48th, thorough: all, exhaustive)")
         if pid in FUZZ:
@@ -83,7 +86,7 @@ def main():
             "add_only": True,
         },
         "engines": [
-            {"name": "cxcheck", "path": "/verif/harness", "serves_properties": sorted(CHECKS), "kind_free_text": "proptest-driven stateful generator + fork-per-case executor on a fixed-address guard-page arena + online reference model/judge; thorough tier adds an exhaustive small-scope sweep (C01-C06, C08) and workers on a plain release profile"},
+            {"name": "cxcheck", "path": "/verif/harness", "serves_properties": sorted(CHECKS), "kind_free_text": "proptest-driven stateful generators (script histories, large-scale shape cases, payload-type matrix histories, differential programs, scaling cases) + fork-per-case executor on a fixed-address guard-page arena + online reference model/judge; small-scope sweep (a slice in the quick tier, exhaustive in the thorough tier; C01-C06, C08, C11) and thorough-tier workers on a plain release profile"},
             {"name": "cxfuzz", "path": "/verif/fuzz", "serves_properties": ["C01", "C02", "C03", "C05", "C06", "C08", "C10", "C12"], "kind_free_text": "cargo-fuzz / libFuzzer + AddressSanitizer target driving the same interpreter, model and judge in-process (thorough tier, -runs bounded); every artifact is re-judged by cxcheck before it is reported"},
         ],
         "checks": checks,
